@@ -283,7 +283,7 @@ def r10_5(ctx):
         seen.add((loc, why))
         ctx.ob("alpha_beta_search:%s" % why.split(" ")[0] + ":" + why.replace(" ", "-")[:40], False, b.where(loc), why)
     ctx.floor("add sites", counts["add"], 1)
-    ctx.floor("remove sites", counts["remove"], 8)
+    ctx.floor("remove sites", counts["remove"], 3)
     ctx.floor("repetition tests", counts["test"], 1)
     for fn in (QUIESCE, GBM):
         fb = f.body(fn)
